@@ -130,7 +130,7 @@ pub fn owners(clause: &str) -> &'static [&'static str] {
         "counter-value" | "counter-text" | "counter-flags" | "counter-nonnumeric" | "counter-create"
         | "counter-ffffffff" | "counter-must-succeed" => &["C07"],
         "delete-status" | "delete-not-removed" | "flush-immediate" | "flush-deadline" | "flush-status"
-        | "removed-visible" => &["C08"],
+        | "removed-visible" | "store-after-flush-affected" => &["C08"],
         "no-panic" | "decode-error-on-valid" => &["C10"],
         "frame" | "frame-residue" => &["C11"],
         "one-response" => &["C11", "C12"],
